@@ -14,21 +14,31 @@ from . import core, syntax, progs, c13
 LABEL_LINE = re.compile(r"(?m)^([A-Za-z_][A-Za-z0-9_]*);[ \t]*[^ \t\r\n]")
 
 
-def trigger(text, used):
-    """the most specific explanation among the recorded findings comes first"""
+def label_line(text, used):
+    if text and any(u.startswith(("heredoc/", "nowdoc/")) for u in used):
+        # the closing label of a heredoc followed, on its own line, by more than ';' (no terminator before PHP 7.3)
+        for m in LABEL_LINE.finditer(text):
+            if re.search(r"<<<[ \t]*['\"]?" + re.escape(m.group(1)) + r"['\"]?\r?\n", text):
+                return True
+    return False
+
+
+def trigger(text, used, cls=None, family=None):
+    """the explanation among the recorded findings that fits the failure class: a text that does not parse under 5.x and has a
+    continued label line is the heredoc finding; a changed structure in a program with an alternative-syntax if is that finding"""
     if any(u in ("closetag+html", "echo+closetag+html") for u in used):
         return "inline-html"
     if text and ",)" in text:
         return "comma-before-closing-parenthesis"
     if text and ("+++" in text or "---" in text):
         return "sign-fused-with-increment"
-    if any(u.startswith(("StmtIf/alt", "StmtElseIf/alt", "StmtElse/alt")) for u in used):
+    alt = any(u.startswith(("StmtIf/alt", "StmtElseIf/alt", "StmtElse/alt")) for u in used)
+    if cls == "formatted-text-does-not-parse" and family == "5" and label_line(text, used):
+        return "heredoc-label-line-continues"
+    if alt:
         return "alternative-syntax-if"
-    if text and any(u.startswith(("heredoc/", "nowdoc/")) for u in used):
-        # the closing label of a heredoc followed, on its own line, by more than ';' (no terminator before PHP 7.3)
-        for m in LABEL_LINE.finditer(text):
-            if re.search(r"<<<[ \t]*['\"]?" + re.escape(m.group(1)) + r"['\"]?\r?\n", text):
-                return "heredoc-label-line-continues"
+    if label_line(text, used):
+        return "heredoc-label-line-continues"
     return "other"
 
 
@@ -53,6 +63,13 @@ def run(tier):
                 continue            # D6 (scanner, known finding of C01/C02/C04) would hide what the formatter does
             for v in e["variants"]:
                 tasks.append({"op": "format_check", "src": v["src"], "ver": progs.VERS[family][0], "_i": i, "_u": e["used"], "_l": v["layout"]})
+        # constructs nested in themselves (SyntaxGen's self-nesting mode): if in if in if with every mix of plain and alternative
+        # syntax, loops in loops, closures in closures ...
+        ts, bs, _ = progs.self_nesting_programs(check, family, core.seed(), 2500 if tier == "quick" else 20000)
+        for j, e in enumerate(progs.expand_all(ts, bs, core.seed(), ["none"])):
+            if e.get("skip") or ({"heredoc/empty", "nowdoc/empty"} & set(e["used"])):
+                continue
+            tasks.append({"op": "format_check", "src": e["variants"][0]["src"], "ver": progs.VERS[family][0], "_i": 2 * 10 ** 7 + j, "_u": e["used"], "_l": "none"})
         # programs nested many blocks deep (indentation state of the formatter)
         for j, src in enumerate(progs.deep_sources(check, family, core.seed(), 60 if tier == "quick" else 600)[: (25 if tier == "quick" else 300)]):
             tasks.append({"op": "format_check", "src": src, "ver": progs.VERS[family][0], "_i": 10 ** 7 + j, "_u": ["deep-nesting"], "_l": "none"})
@@ -75,11 +92,11 @@ def run(tier):
                 continue
             F = r.get("F")
             if r.get("nerr1", 0) > 0:
-                check.violation({"class": "formatted-text-does-not-parse", "trigger": trigger(F, used), "family": family},
+                check.violation({"class": "formatted-text-does-not-parse", "trigger": trigger(F, used, "formatted-text-does-not-parse", family), "family": family},
                                 {"src": t["src"], "formatted": F, "error": r.get("err1"), "variants": used})
                 continue
             if r.get("sfp1") != r.get("sfp0"):
-                check.violation({"class": "formatting-changes-structure", "trigger": trigger(F, used), "family": family},
+                check.violation({"class": "formatting-changes-structure", "trigger": trigger(F, used, "formatting-changes-structure", family), "family": family},
                                 {"src": t["src"], "formatted": F, "variants": used})
                 continue
             if r.get("idempotent") is False:
